@@ -83,6 +83,11 @@ def _repad_ae(raw):
         pos += 8 + ln
         if (g, e) == (0, 0):
             continue
+        if ln == 0:
+            # (a received message with a zero-length element cannot be passed on at all: send()
+            # raises TypeError from pydicom's writer on the unconverted element - an
+            # observation, DESIGN 13.3; nothing malformed is transmitted, so it is not C08's)
+            return raw, False
         if g == 0 and rc.CMD_VR.get(e) == 'AE' and val.strip():
             val = (b' ' + val.strip())[:16].ljust(16)
             changed = True
